@@ -103,13 +103,10 @@ Definition wf_graphb (T : truth) (ch : list (string * node)) (es : list (string 
                     shape_eqb (snd (T (fst e))) (fst (T (snd e)))) es &&
   forallb (fun p => annotatedb (T (fst p)) (snd p) || erasedb (T (fst p)) (snd p)) ch.
 
-Ltac dmatch H :=
-  repeat (match type of H with context [match ?x with _ => _ end] =>
-            is_var x; destruct x; try discriminate H end).
-
 Lemma annotatedb_sound t n : annotatedb t n = true -> annotated t n.
 Proof.
-  intros H. unfold annotatedb in H. dmatch H.
+  intros H. unfold annotatedb in H.
+  destruct n as [k fields [[|[ki [|a| |]] [|]]|] [[|[ko [|b| |]] [|]]|] |]; try discriminate H.
   repeat (apply andb_true_iff in H; destruct H as [H ?]).
   apply String.eqb_eq in H. subst.
   match goal with H : String.eqb _ "output" = true |- _ => apply String.eqb_eq in H; subst end.
@@ -127,19 +124,21 @@ Lemma derive_okb_sound k fs sin sout : derive_okb k fs sin sout = true ->
   exists fs', derive_output k fs [("output", TArr sin)] [("input", TArr sin)] =
               (fs', Some [("output", TArr sout)], None).
 Proof.
-  unfold derive_okb. destruct (derive_output _ _ _ _) as [[fs' r] ex]. intros H. dmatch H.
+  unfold derive_okb. destruct (derive_output _ _ _ _) as [[fs' r] ex]. intros H.
+  destruct r as [[|[ko [|s| |]] [|]]|]; destruct ex as [e|]; try discriminate H.
   apply andb_true_iff in H as [H1 H2]. apply String.eqb_eq in H1. apply shape_eqb_eq in H2. subst.
   exists fs'. reflexivity.
 Qed.
 
 Lemma erasedb_sound t n : erasedb t n = true -> erased_ok t n.
 Proof.
-  intros H. unfold erasedb in H. dmatch H.
-  exists k, fields, s, t0, tout. split; [reflexivity|].
+  intros H. unfold erasedb in H.
+  destruct n as [k fields [[|[ki vi] [|]]|] tout|]; try discriminate H.
+  exists k, fields, ki, vi, tout. split; [reflexivity|].
   apply orb_true_iff in H as [H|H]; repeat (apply andb_true_iff in H; destruct H as [H ?]).
   - left. apply kind_eqb_eq in H. match goal with H : shape_eqb _ _ = true |- _ => apply shape_eqb_eq in H end.
     repeat split; assumption.
-  - right. split; [exact H|]. split; [destruct t0; try discriminate; reflexivity|].
+  - right. split; [exact H|]. split; [destruct vi; try discriminate; reflexivity|].
     split; [assumption|]. apply derive_okb_sound. assumption.
 Qed.
 
@@ -339,6 +338,34 @@ Proof.
       eexists. split; [reflexivity|]. split.
       * exists k, fs'. split; [reflexivity|]. intros [->| ->]; discriminate Hrec.
       * split; [reflexivity|]. intros (k' & fs'' & E & _). inversion E.
+Qed.
+
+(* erased_ok is what the constructors produce for un-annotated nodes (generic instances) *)
+Lemma erased_ok_output s fs ki tout : erased_ok (s, s) (Leaf KOutput fs (Some [(ki, TNone)]) tout).
+Proof.
+  exists KOutput, fs, ki, TNone, tout. split; [reflexivity|]. left. repeat split.
+Qed.
+
+Lemma erased_ok_flatten sh s e fs ki tout :
+  fld "start_dim" fs = Ok (VInt s) -> fld "end_dim" fs = Ok (VInt e) -> valid_dims sh s e ->
+  ty_undef tout = true ->
+  erased_ok (sh, flatten_out sh s e) (Leaf KFlatten fs (Some [(ki, TNone)]) tout).
+Proof.
+  intros Hs He Hv Hu. exists KFlatten, fs, ki, TNone, tout. split; [reflexivity|]. right.
+  split; [reflexivity|]. split; [reflexivity|]. split; [exact Hu|]. exists fs. cbn [fst snd].
+  apply flatten_infer; assumption.
+Qed.
+
+Lemma erased_ok_pool k fs c sp out ks stride pad ki tout :
+  k = KSumPool2d \/ k = KAvgPool2d ->
+  fld "kernel_size" fs = Ok ks -> fld "stride" fs = Ok stride -> fld "padding" fs = Ok pad ->
+  conv_out (HArr sp) (hp_of pad) (HInt 1) (hp_of ks) (hp_of stride) = Ok out ->
+  ty_undef tout = true ->
+  erased_ok (c :: sp, c :: out) (Leaf k fs (Some [(ki, TNone)]) tout).
+Proof.
+  intros Hk H1 H2 H3 H4 Hu. exists k, fs, ki, TNone, tout. split; [reflexivity|]. right.
+  split; [destruct Hk; subst; reflexivity|]. split; [reflexivity|]. split; [exact Hu|].
+  exists fs. cbn [fst snd]. eapply pool_infer; eassumption.
 Qed.
 
 (* the three restrictions w.r.t. the informal statement are necessary: *)
